@@ -145,7 +145,7 @@ def gen_outcomes(rnd):
     if mode in ("cancel", "timeout") and rnd.random() < 0.5:
         for nm in ("work1", "work2", "tap"):
             if nm in steps:
-                steps[nm]["stream_on_cancel"] = True
+                steps[nm]["stream_on_cancel"] = rnd.choice([True, True, 0.05, 0.2, 0.3])
     if mode == "cancel":
         spec["externals"] = [{"at": rnd.choice([0, 0.5, 1, 1.5, 2, 3, 4.5, 6]), "cancel": True}]
     elif mode == "timeout":
@@ -155,7 +155,7 @@ def gen_outcomes(rnd):
         steps["join"]["nw"] = rnd.randint(2, 4)
         for nm in ("work1", "work2", "tap", "join"):
             if nm in steps and rnd.random() < 0.6:
-                steps[nm]["stream_on_cancel"] = True
+                steps[nm]["stream_on_cancel"] = rnd.choice([True, True, 0.05, 0.2, 0.3])
     elif mode == "nonevent":
         steps["work2"]["acts"] = [{"k": "sleep", "d": {"from": "lat"}}, {"k": "ret", "type": "nonevent"}]
         steps["work2"]["declare"] = ["EvC"]
@@ -172,11 +172,15 @@ def gen_outcomes(rnd):
         steps["join"]["acts"].insert(0, {"k": "stream"})
         for nm in ("work1", "work2", "tap"):
             if nm in steps:
-                steps[nm]["stream_on_cancel"] = True
+                steps[nm]["stream_on_cancel"] = rnd.choice([True, True, 0.05, 0.2, 0.3])
     elif mode == "fail":
         for it in steps["start"]["acts"]:
             if it["k"] == "send" and it["type"] == "EvA":
                 it["items"][rnd.randrange(len(it["items"]))]["fails"] = 99
+        for nm in ("work1", "work2", "tap"):
+            if nm in steps and rnd.random() < 0.6:
+                # siblings of the failing invocation report their own shutdown, some after a short async cleanup
+                steps[nm]["stream_on_cancel"] = rnd.choice([True, 0.05, 0.2, 0.3])
     return spec
 
 
@@ -343,7 +347,12 @@ def gen_catch(rnd):
     elif layout == "scoped+wildcard":
         steps.append(handler("h1", [rnd.choice(["w1", "w2"])], rnd.randint(1, 2)))
         steps.append(handler("hw", None, rnd.randint(1, 2)))
-    return {"family": "catch", "steps": steps, "timeout": None, "externals": [], "meta": {"layout": layout, "n": n}}
+    if rnd.random() < 0.25:
+        # assemble part of the workflow after the instance exists (Workflow.add_step): a handler, or the step a wildcard handler owns
+        cands = [s_ for s_ in steps if s_.get("handler") is not None] + [s_ for s_ in steps if s_["name"] == "w2"]
+        if cands:
+            rnd.choice(cands)["late"] = True
+    return {"family": "catch", "steps": steps, "timeout": None, "externals": [], "meta": {"layout": layout, "n": n, "late": any(s_.get("late") for s_ in steps)}}
 
 
 # ---------------------------------------------------------------- collect family (C09)
@@ -474,4 +483,23 @@ def gen_busyretry(rnd):
         {"name": "join", "in": ["EvC"], "nw": 1, "acts": [{"k": "ret", "type": "StopEvent", "result": "const"}]},
     ]
     return {"family": "busyretry", "steps": steps, "timeout": None, "externals": [], "meta": {"retry_wait": w, "burn": lead + b, "retry_due": 0.1 + w}}
+
+
+def gen_equalfan(rnd):
+    """fan-out of EQUAL events (same type and field values) into a multi-worker step whose invocations finish out of slot order
+    (latency chosen by entry order, not by payload), followed by more work for that step: slot bookkeeping cannot lean on
+    event identity."""
+    k = rnd.randint(3, 6)
+    nw = rnd.randint(2, 4)
+    lats = [rnd.choice([0.5, 1, 1.5, 2, 3]) for _ in range(k)]
+    if lats[0] <= min(lats[1:nw] or [lats[0]]):
+        lats[0] = max(lats) + 1  # slot 0 outlives a higher slot
+    items = [{"_plain": True} for _ in range(k)]
+    steps = [
+        {"name": "start", "in": ["Go"], "nw": 1, "acts": [{"k": "send", "type": "EvA", "items": items, "gap": rnd.choice([None, None, 0.25])}, {"k": "ret", "type": None}],
+         "declare": ["EvA"]},
+        {"name": "work", "in": ["EvA"], "nw": nw, "acts": [{"k": "sleep", "d": {"nth": lats, "step": "work"}}, {"k": "stream"}, {"k": "ret", "type": "EvC"}]},
+        {"name": "join", "in": ["EvC"], "nw": 1, "acts": [{"k": "collect", "types": ["EvC"] * k}, {"k": "ret", "type": "StopEvent", "result": "const"}]},
+    ]
+    return {"family": "equalfan", "steps": steps, "timeout": None, "externals": [], "meta": {"k": k, "nw": nw, "lats": lats}}
 
